@@ -20,7 +20,7 @@ ASSUMPTIONS = unitkit.UNITS_STUB_TEXT + [
     "temperatures are claimed at or above absolute zero (the property's 'physically meaningful range')",
     "the direct B<->Np constant (1.151277918) is not compared with ln(10)/2: C05 does not state it",
 ]
-OUTSIDE = ['array magnitudes', 'binary64 rounding', 'the B<->Np constant', 'temperatures inside compound units (refused by the library)']
+OUTSIDE = ['array magnitudes beyond two elements (temperature conversions and level additions are checked on 2-element arrays)', 'binary64 rounding', 'the B<->Np constant', 'temperatures inside compound units (refused by the library)']
 BOUNDS = {'quick': 'all 16 temperature pairs + prefixed kelvin, every row of LogarithmicUnitType.conversions with its admissible prefixes, add/sub for every bel-type unit',
           'thorough': 'same plus more linear-side prefixes and compound forms'}
 EXHAUSTIVE = {'quick': True, 'thorough': True}
@@ -82,6 +82,41 @@ def run(v, O):
     p = lambda t: O.pow(10, t / v.scale)
     d = Quantity(v.a, v.w) - Quantity(v.b, v.w)
     out = [('a-b power difference', O.eq(d.value(), v.scale * O.log10(p(v.a) - p(v.b)))), ('a-b units', O.same(d.units(), v.w))]
+    return out
+'''
+ARR_SRC = '''
+def run(v, O):
+    # array magnitudes: the formulas hold element-wise and reading a value twice gives the same numbers
+    out = []
+    xs = (v.x0, v.x1)
+    T = Quantity(O.arr([v.x0, v.x1]), v.u)
+    r1 = T.value(v.w)
+    r2 = T.value(v.w)
+    back = Quantity(O.arr([v.x0, v.x1]), v.u).to(v.w).to(v.u).value()
+    for i in (0, 1):
+        want = fromK(v.w, toK(v.u, xs[i]))
+        out.append((f'[{i}] value', O.eq(r1[i], want, 1e-9)))
+        out.append((f'[{i}] second reading equals the first', O.eq(r2[i], want, 1e-9)))
+        out.append((f'[{i}] source unchanged', O.eq(T.value()[i], xs[i], 1e-9)))
+        out.append((f'[{i}] identity', O.eq(T.value(v.u)[i], xs[i], 1e-9)))
+        out.append((f'[{i}] round trip', O.eq(back[i], xs[i], 1e-9)))
+    return out
+'''
+ARRADD_SRC = '''
+def run(v, O):
+    p = lambda t: O.pow(10, t / v.scale)
+    A = Quantity(O.arr([v.a0, v.a1]), v.w); B = Quantity(O.arr([v.b0, v.b1]), v.w)
+    try:
+        s = A + B
+        n = len(s.value())
+    except Exception:
+        n = -1
+    if n != 2:
+        return [('a+b gives one level per element', False)]
+    out = []
+    for i, (a, b) in enumerate(((v.a0, v.b0), (v.a1, v.b1))):
+        out.append((f'[{i}] a+b power sum, element-wise', O.eq(s.value()[i], v.scale * O.log10(p(a) + p(b)))))
+    out.append(('a+b units', O.same(s.units(), v.w)))
     return out
 '''
 MIX_SRC = '''
@@ -173,6 +208,13 @@ def scenarios(tier, seed):
             S.append(Scenario(f'mixed/{p1}{w}|{p2}{w}', MIX_SRC, {'a': 'real', 'b': 'real'}, [f'v.a * {s2} > v.b * {s1}'],
                               consts={'w1': p1 + w, 'w2': p2 + w, 's1': s1, 's2': s2, 'sub': True}, preamble=PRE,
                               what=f'level addition/subtraction {p1}{w} with {p2}{w}', samples=2))
+    for u, w in (('Cel', 'degF'), ('degF', 'Cel'), ('K', 'degF'), ('degF', 'K'), ('Cel', 'K'), ('K', 'Cel'), ('degR', 'Cel'), ('mK', 'degF')):
+        zero = {'Cel': -273.15, 'degF': -459.67}.get(u, 0)
+        S.append(Scenario(f'temp-array/{u}->{w}', ARR_SRC, {'x0': 'real', 'x1': 'real'}, [f'v.x0 >= {zero}', f'v.x1 >= {zero}'], consts={'u': u, 'w': w}, preamble=PRE,
+                          what=f'array temperature conversion {u} -> {w}', samples=2))
+    for w, wscale in (('dB', 10.0), ('B', 1.0), ('dBm', 10.0), ('dBV', 10.0)):
+        S.append(Scenario(f'add-array/{w}', ARRADD_SRC, {'a0': 'real', 'a1': 'real', 'b0': 'real', 'b1': 'real'}, consts={'w': w, 'scale': wscale}, preamble=PRE,
+                          what=f'element-wise level addition of arrays in {w}', samples=2))
     for w1, w2 in (('B', 'Np'), ('Np', 'B'), ('dB', 'Np'), ('dB', 'cNp'), ('cNp', 'dB'), ('dNp', 'B'), ('B', 'dNp')):
         S.append(Scenario(f'roundtrip/{w1}<->{w2}', RT_SRC, {'y': 'real'}, consts={'w1': w1, 'w2': w2}, preamble=PRE, what=f'level conversion {w1} -> {w2} -> {w1}', samples=2))
     S.append(Scenario('canary/temp', TEMP_SRC, {'x': 'real'}, ['v.x >= 0'], consts={'u': 'Cel', 'w': 'degR'}, preamble=PRE.replace('273.15', '273.25'), canary=True))
